@@ -16,18 +16,17 @@ PROP = dict(
         "the governance theorems are for the repaired code (fix_block_dirty, fix_gpv_drop); counter-examples are proved for the unrepaired settings",
     ],
     modelled="store layering and the NEO/Policy caches are modelled and proved; Management/Designate/Oracle/Notary caches, the MPT, the mempool and the real "
-             "goroutine schedule are covered by the replica differential only; full restart transparency over continuations is stated (C01_restart_transparent_statement) and "
-             "proved only in its one-step form (C01_restart_transparent_partial)",
+             "goroutine schedule are covered by the replica differential only",
 )
 META = dict(
     text="Proved in Coq: a flush at any time changes no answer; replicas fed the same blocks under any flush/prune/restart schedules agree on all state keys, results and height "
          "(interpreter = any function of state keys); for every block history the incrementally maintained NEO and Policy caches (committee, next-epoch committee, votesChanged, "
-         "gas-per-vote, gas-per-block, register price, blocked accounts, fee settings) are coherent with storage after every block, so a node restarted there gives the same committee / "
-         "validator / policy answers over the same storage and is coherent again — for the repaired code; for the unrepaired code the two counter-example histories (findings F7, F23) are theorems. "
+         "gas-per-vote, gas-per-block, register price, blocked accounts, fee settings) are coherent with storage after every block, and a restart after ANY block (any number of restarts) "
+         "leaves the storage of the modelled contracts and every committee / validator / policy answer unchanged after ANY continuation (simulation proof) — for the repaired code; for the unrepaired code the two counter-example histories (findings F7, F23) are theorems. "
          "Tied to the real node by a replica differential: the same blocks on memory/LevelDB/BoltDB replicas with random flush points (hook VerifPersist), KeepOnlyLatestState, "
          "RemoveUntraceableBlocks+GC, SkipBlockVerification, VerifyTransactions off, mempool junk and a restart at every height, comparing state root, full contract storage, execution results and "
-         "all getters at every height; plus the governance model against the source node's getters. Partial: full restart transparency over arbitrary continuations is proved only one step deep "
-         "in Coq (the continuation part is carried by the differential); Management/Designate/Oracle caches are not modelled.",
+         "all getters at every height; plus the governance model against the source node's getters. Partial: the interpreter (VM, natives outside NEO/GAS/Policy/Notary accounting) is a parameter of the store theorems; "
+         "Management/Designate/Oracle caches are not modelled (compared on the real replicas only).",
     note="Trusted: Coq kernel + vm_compute, the hand-written models (tied by differential comparison only), the Go harness, the VerifPersist hook, ./check. "
          "Assumed: VM/native determinism as a function of storage and block (checked only by the differential).",
 )
